@@ -12,6 +12,9 @@
                - a passphrase was given => whatever holds private material is encrypted;
                - import with the right passphrase: == original, != is False, same privacy, same component values; with a wrong or
                  missing passphrase: refused with a documented exception class.
+   "foreign" import_key() of a key file written by an independent implementation (OpenSSL 3.5, OpenSSH 9.2; clear, legacy PEM
+             encryption, PBES2 and the import-only PBES1 schemes): this specification reads the file itself, opens it itself, and the
+             components it finds must be those of the key object import_key returned; wrong / missing passphrases are refused.
    "eq"      one comparison k1 == k2 / k1 != k2 from the equality table (pairs enumerated by mc/KeyExportMC_eq plus the recorder's
              extra pairs); judged against KeyExport!KeyEq on the recorded component values.
    Clauses starting with "harness:" are recorder inconsistencies (machinery failure), never violations. *)
@@ -100,10 +103,18 @@ View(e) ==
            [st |-> "ok", armor |-> a.armor, label |-> a.label, kind |-> kind, enc |-> IF a.armor = "pemenc" THEN "pemenc" ELSE "none",
             opened |-> TRUE, clear |-> der, ckind |-> kind, epki |-> NoEpki]
       ELSE IF a.armor = "pemenc" THEN Fail("an EncryptedPrivateKeyInfo inside PEM encryption")
+      ELSE IF IsPbes1(der) THEN                       \* import-only schemes: export_key never writes them; files of the "foreign" family do
+           LET p1 == EpkiPbes1(der) IN
+           IF ~IsGood(p1) THEN Fail("EncryptedPrivateKeyInfo (PBES1) does not parse (RFC 8018 A.3): " \o p1[2])
+           ELSE LET pt == Pbes1Open(p1[2], e.pw) IN
+                IF ~IsGood(pt) THEN Fail("EncryptedPrivateKeyInfo (PBES1) does not open with the passphrase (RFC 8018 6.1.2): " \o pt[2])
+                ELSE IF DerDefect(pt[2]) # "" \/ SniffDer(pt[2]) # "pkcs8" THEN Fail("EncryptedPrivateKeyInfo (PBES1) does not contain a canonical PrivateKeyInfo")
+                ELSE [st |-> "ok", armor |-> a.armor, label |-> a.label, kind |-> "epki", enc |-> "epki", opened |-> TRUE, clear |-> pt[2], ckind |-> "pkcs8",
+                      epki |-> [pbes1 |-> p1[2], gcmpar |-> ""]]
       ELSE
       LET p == Epki(der) IN
       IF ~IsGood(p) THEN Fail("EncryptedPrivateKeyInfo does not parse (RFC 8018 A.2-A.4, RFC 7914 7): " \o p[2])
-      ELSE LET q == p[2]  sd == EpkiDefect(q)  sc == SchemeDefect(e, q) IN
+      ELSE LET q == p[2]  sd == EpkiDefect(q)  sc == IF e.fam = "foreign" THEN "" ELSE SchemeDefect(e, q) IN
       IF sd # "" THEN Fail("EncryptedPrivateKeyInfo: " \o sd)
       ELSE IF sc # "" THEN Fail("EncryptedPrivateKeyInfo: " \o sc)
       ELSE IF q.k.prfpar = "absent" /\ ~PrfParametersAbsentTolerated THEN Fail("EncryptedPrivateKeyInfo: prf AlgorithmIdentifier without NULL parameters")
@@ -266,6 +277,7 @@ PubPart(t, c) == IF t = "RSA" THEN <<c.n, c.e>> ELSE IF t = "DSA" THEN <<c.p, c.
 \* would the wrong passphrase open the container to something of the right shape?  (evaluated only to excuse an acceptance)
 WrongCouldOpen(e, V, pw) ==
    IF V.enc = "pemenc" THEN (LET r == LegacyPemOpen(Armor(e).ct, Armor(e).iv, pw) IN IsGood(r) /\ SniffDer(r[2]) = V.kind)
+   ELSE IF V.enc = "epki" /\ V.opened /\ "pbes1" \in DOMAIN V.epki THEN (LET r == Pbes1Open(V.epki.pbes1, pw) IN IsGood(r) /\ SniffDer(r[2]) = "pkcs8")
    ELSE IF V.enc = "epki" /\ V.opened THEN (LET r == EpkiOpen(V.epki, pw) IN IsGood(r) /\ SniffDer(r[2]) = "pkcs8")
    ELSE FALSE
 ImpVerdict(e, V, im) ==
@@ -343,13 +355,27 @@ EqVerdict(e) ==
       ELSE IF (e.ne = "True") = (e.eq = "True") THEN "!= is not the negation of ==: " \o a.type
       ELSE "ok"
 
-Verdict(e) == IF e.fam = "export" THEN ExportVerdict(e) ELSE IF e.fam = "eq" THEN EqVerdict(e) ELSE "harness: unknown family"
+\* a file written by an independent implementation: the record has the shape of an export record whose `key` is the imported key
+ForeignVerdict(e) ==
+   IF ~e.imported THEN "import of a key file written by an independent implementation raised " \o e.import_exc
+   ELSE LET V == View(e) IN
+        IF V.st # "ok" THEN "harness: the specification cannot read an OpenSSL / OpenSSH file: " \o V.why
+        ELSE LET s == StructVerdict(e, V, "unspecified") IN
+             IF s # "ok" THEN "import of a key file written by an independent implementation: " \o s
+             ELSE IF ~ImportsComplete(e, V) THEN "harness: imports missing"
+             ELSE ImportsVerdict(e, V, 1)
+Verdict(e) == IF e.fam = "export" THEN ExportVerdict(e) ELSE IF e.fam = "eq" THEN EqVerdict(e)
+              ELSE IF e.fam = "foreign" THEN ForeignVerdict(e) ELSE "harness: unknown family"
 \* how far this specification read the export (printed in the position field of the verdict; evidence only):
 \*   1 nothing to read (exception, equality pair)   2 clear structure parsed   3 legacy PEM encryption opened here
 \*   4 PBES2 container opened here   5 PBES2 container judged by structure only (key derivation beyond OpenBudget)   0 not readable
-ReadCode(e) == IF e.fam # "export" \/ e.out # "bytes" \/ KE!Legal(e.o) = "ValueError" THEN 1
-               ELSE LET V == View(e) IN
-                    IF V.st # "ok" THEN 0 ELSE IF V.enc = "none" THEN 2 ELSE IF V.enc = "pemenc" THEN 3 ELSE IF V.opened THEN 4 ELSE 5
+\*   6 PBES1 container opened here (files of the "foreign" family)
+ReadCode(e) == IF e.fam \notin {"export", "foreign"} \/ e.out # "bytes" \/ (e.fam = "export" /\ KE!Legal(e.o) = "ValueError") THEN 1
+               ELSE LET a == Armor(e) IN                       \* decided from the armour and the container's parameters, without opening again
+                    IF a.st # "ok" THEN 0 ELSE IF a.armor \in {"ssh", "raw"} THEN 2 ELSE IF a.armor = "pemenc" THEN 3
+                    ELSE IF SniffDer(a.der) # "epki" THEN 2
+                    ELSE IF IsPbes1(a.der) THEN 6
+                    ELSE LET p == Epki(a.der) IN IF ~IsGood(p) THEN 0 ELSE IF EpkiCost(p[2]) > OpenBudget THEN 5 ELSE 4
 VARIABLES t
 TInit == t = 1
 TNext == /\ t <= Len(Traces)
